@@ -124,6 +124,9 @@ type execSpec struct {
 	factory  func() any // history steps only: a front-end request whose body cannot be decoded
 }
 
+// sharedCtxOpt is one option value reused by calls of every case (options are values a program may keep).
+var sharedCtxOpt = z.WithCtxValue("k8", "shared")
+
 func (g *Gen) execSpec() *execSpec { return g.execSpecFor(g.Schema()) }
 
 func (g *Gen) execSpecFor(n *Node) *execSpec {
@@ -141,6 +144,11 @@ func (g *Gen) execSpecFor(n *Node) *execSpec {
 	setCtx := func(k string, v any) {
 		e.ctxVals[k] = v
 		e.opts = append(e.opts, z.WithCtxValue(k, v))
+	}
+	if g.R.Fork(0x5ca1ab1e).P(35) {
+		// an option value created once for the whole process and passed to many calls, ahead of the call's own options
+		e.ctxVals["k8"] = "shared"
+		e.opts = append(e.opts, sharedCtxOpt)
 	}
 	if g.R.P(45) {
 		setCtx("k1", fmt.Sprintf("v%d", g.R.Intn(100)))
@@ -464,6 +472,9 @@ func (g *Gen) SharedSpec(k int) *ExecSpec {
 			in := g.Input(n)
 			e.in = &in
 			e.dest0 = reflect.Zero(t)
+		}
+		if g.R.Fork(0x5ca1ab1e).P(35) {
+			e.opts = append(e.opts, sharedCtxOpt)
 		}
 		if g.R.P(40) {
 			e.opts = append(e.opts, z.WithCtxValue("k1", fmt.Sprintf("v%d", g.R.Intn(100))))
